@@ -7,7 +7,7 @@ if ! git -C /repo diff --quiet; then echo "repo has uncommitted changes"; exit 2
 git -C /repo apply "$patch" || { echo "patch does not apply"; exit 2; }
 for id in "$@"; do
   echo "=== $id on $(basename $(dirname $patch))"
-  VERIF_KEEP_TREES=1 timeout 3600 ./check $id --tier $tier 2>&1 | grep -v "^\[build\]" | cut -c1-300 | tail -8
+  VERIF_EVIDENCE_DIR=/var/tmp/mpir-verif-evidence-scratch VERIF_KEEP_TREES=1 timeout 3600 ./check $id --tier $tier 2>&1 | grep -v "^\[build\]" | cut -c1-300 | tail -8
   echo "exit=${PIPESTATUS[0]}"
 done
 git -C /repo checkout -- .
